@@ -803,6 +803,77 @@ def rule_r7(ctx) -> List[R.Inst]:
                     sl[f_] = (v_.slice.lower.value, v_.slice.upper.value, n)
     if not sl:
         sl = byname
+    # which lines are note lines: '#' followed by a decimal digit (measures 000..999) — all ten digits
+    DIG = set(range(48, 58))
+    tests = []
+    for n in ast.walk(rd.node):
+        if isinstance(n, ast.If) and any(isinstance(x, ast.Call) and call_name(x) == "split" and x.args and isinstance(x.args[0], ast.Constant) and
+                                         x.args[0].value in (b":", ":") for x in ast.walk(n)):
+            tests.append(n)
+    digit_test = None
+    for n in tests:
+        for c in ast.walk(n.test):
+            if isinstance(c, ast.Compare) and len(c.ops) == 2 and all(isinstance(o, (ast.LtE, ast.Lt)) for o in c.ops):
+                digit_test = ("range", c)
+            elif isinstance(c, ast.Compare) and len(c.ops) == 1 and isinstance(c.ops[0], ast.In):
+                digit_test = ("in", c)
+            elif isinstance(c, ast.Call) and call_name(c) == "isdigit":
+                digit_test = ("isdigit", c)
+    if digit_test is None:
+        insts.append(R.undec(rid, "note-line-test", file_r, rd.node.lineno, "test that tells note lines from header lines not found"))
+    else:
+        kind, c = digit_test
+
+        def ordv(e):
+            if isinstance(e, ast.Call) and call_name(e) == "ord" and e.args and isinstance(e.args[0], ast.Constant) and len(e.args[0].value) == 1:
+                return ord(e.args[0].value)
+            if isinstance(e, ast.Constant) and isinstance(e.value, int):
+                return e.value
+            return None
+        got = None
+        if kind == "range":
+            lo, hi = ordv(c.left), ordv(c.comparators[1])
+            if lo is not None and hi is not None:
+                got = set(range(lo + (1 if isinstance(c.ops[0], ast.Lt) else 0), hi + (0 if isinstance(c.ops[1], ast.Lt) else 1)))
+        elif kind == "in":
+            try:
+                v = M.lit(rd.mod, c.comparators[0], rd.cls)
+            except Exception:
+                v = None
+                # bytes(range(ord("0"), ord("9") + 1)) and the like, possibly through a module-level name
+                e0 = c.comparators[0]
+                if isinstance(e0, ast.Name):
+                    ds0 = [st.value for st in M.mods[rd.mod].tree.body if isinstance(st, ast.Assign) and len(st.targets) == 1 and
+                           isinstance(st.targets[0], ast.Name) and st.targets[0].id == e0.id]
+                    e0 = ds0[0] if len(ds0) == 1 else e0
+                if isinstance(e0, ast.Call) and call_name(e0) in ("bytes", "frozenset", "set", "tuple", "list") and len(e0.args) == 1 and \
+                        isinstance(e0.args[0], ast.Call) and call_name(e0.args[0]) == "range" and 1 <= len(e0.args[0].args) <= 2:
+                    def iv(x):
+                        if isinstance(x, ast.BinOp) and isinstance(x.op, (ast.Add, ast.Sub)) and iv(x.left) is not None and iv(x.right) is not None:
+                            return iv(x.left) + iv(x.right) if isinstance(x.op, ast.Add) else iv(x.left) - iv(x.right)
+                        return ordv(x)
+                    ra = [iv(x) for x in e0.args[0].args]
+                    if all(x is not None for x in ra):
+                        v = list(range(*ra))
+            if isinstance(v, (bytes, bytearray)):
+                got = set(v)
+            elif isinstance(v, str):
+                got = {ord(ch) for ch in v}
+            elif isinstance(v, (list, tuple, set, frozenset)) and all(isinstance(x, int) for x in v):
+                got = set(v)
+        elif kind == "isdigit":
+            got = DIG
+        if got is None:
+            insts.append(R.undec(rid, "note-line-test", file_r, c.lineno, f"set of characters accepted by '{unparse(c)[:60]}' not evaluated"))
+        elif got == DIG:
+            insts.append(R.ok(rid, "note-line-test", file_r, c.lineno, idiom="a note line is '#' followed by one of the ten decimal digits"))
+        else:
+            miss = "".join(chr(x) for x in sorted(DIG - got))
+            extra = "".join(chr(x) for x in sorted(got - DIG))[:10]
+            insts.append(R.viol(rid, "note-line-test", file_r, c.lineno,
+                                f"note lines are recognised by '{unparse(c)[:60]}'" + (f", which misses the digit(s) '{miss}': every line of the measures "
+                                f"starting with them is skipped silently" if miss else "") + (f", which also accepts '{extra}'" if extra else ""),
+                                construct=f"note-line digits: missing '{miss}' extra '{extra}'"))
     want = {"measure": (1, 4), "channel": (4, 6)}
     for nm, (a, b) in want.items():
         key = f"line-slice:{nm}"
